@@ -37,6 +37,11 @@ and the value ToMesg omits, are the base type's invalid value; eligible numbers 
 theorem C13_tables_wf : ∀ T ∈ Mesgdef.tables, T.wf = true := by
   decide +kernel
 
+/-- The probing translator met no behaviour of the compiled code that a table cannot express (a validity rule of
+another shape, a mark that is not copied, a number stored beyond the guard, …). -/
+theorem C13_tables_expressible : Mesgdef.anomalies = [] := by
+  decide +kernel
+
 /-- The tables cover the profile: every message of the compiled factory has a typed struct (and vice versa), whose
 slots are exactly the factory's fields of that message, with the factory's base types. -/
 theorem C13_tables_match_factory :
